@@ -13,6 +13,8 @@
 (*   k = "run"   goroutines parked inside server code at the end, clients  *)
 (*               whose read loop never came back                           *)
 (*   k = "race"  one race-detector report (two access sites)               *)
+(*   k = "crash" an unrecovered panic / fatal error in SERVER code that    *)
+(*               killed the process while the histories ran               *)
 (* `bad` = names of property-level monitors false on the observation (the  *)
 (* verdict); `div` = observations Attach.tla cannot produce (binding).     *)
 (* Vectors are visited as a 16-ary tree so that TLC's workers share them.  *)
@@ -118,6 +120,7 @@ Check(v) ==
     [] v.k = "snap" -> CheckSnap(v)
     [] v.k = "run"  -> CheckRun(v)
     [] v.k = "race" -> CheckRace(v)
+    [] v.k = "crash" -> {"NoServerCrash"}      \* an unrecovered panic in server code ended the process: every session hangs
     [] OTHER        -> {}
 
 \* ------------------------------------------------------------------ binding: what Attach.tla can produce
